@@ -66,6 +66,58 @@ func init() {
 	props["C09"] = &propDef{
 		run: func(c *Ctx) {
 			rng := NewRng(c.Seed)
+			// length boundaries: hosts whose raw, decoded or encoded spelling crosses the sizes a parser might be tempted to treat
+			// specially (label 63/64, name 253..256, 261/262, 1000, 5000): the spellings agree and a pure-ASCII host is exact
+			{
+				lens := []int{62, 63, 64, 65, 84, 85, 86, 87, 88, 127, 128, 252, 253, 254, 255, 256, 257, 260, 261, 262, 263, 300}
+				if c.Tier == "thorough" {
+					lens = append(lens, 511, 512, 1000, 1024, 2000)
+				}
+				c.Pool.Run(len(lens)*4, func(d *Driver, i int) {
+					L := lens[i/4]
+					var plain string
+					switch i % 4 {
+					case 0: // short labels
+						plain = rep("Ab1-c.", L)
+					case 1: // labels of 63
+						plain = rep(strings.Repeat("x", 62)+"Y.", L)
+					case 2: // one long label
+						plain = rep("Zz9", L-4) + ".Org"
+					default: // letters that change under case mapping only
+						plain = rep("EXAMPLE.", L-3) + "COM"
+					}
+					plain = strings.Trim(plain, ".-")
+					enc := ""
+					for k := 0; k < len(plain); k++ {
+						enc += fmt.Sprintf("%%%02X", plain[k])
+					}
+					half := plain[:len(plain)/2] + enc[3*(len(plain)/2):]
+					for _, sc := range []string{"http", "wss"} {
+						mk := func(h string) string { return sc + "://" + h + "/p" }
+						o0 := c.cmpParse(d, defaultCfg, nil, mk(plain), allButVerrs, true, "long-hosts", i)
+						c.Count("long\x00"+mk(plain), true, "long-hosts")
+						cs := Case{Kind: "parse", Cfg: defaultCfg.Desc, Input: mk(plain), Family: "long-hosts", Index: i}
+						for _, alt := range []string{strings.ToLower(plain), strings.ToUpper(plain), enc, half} {
+							o1 := c.cmpParse(d, defaultCfg, nil, mk(alt), allButVerrs, true, "long-hosts-variant", i)
+							if o0.Kind != o1.Kind || o0.Kind == "U" && o0.Fields[fHostname] != o1.Fields[fHostname] {
+								c.Report(Finding{Class: "violation", What: fmt.Sprintf("host spelling changes the result for a host of %d bytes: plain spelling -> %s but the spelling %.60q... (%d bytes) -> %s", len(plain), o0.Kind+" "+o0.Fields0(fHostname), alt, len(alt), o1.Kind+" "+o1.Fields0(fHostname)), Case: cs, Host: o0.Fields0(fHostname)})
+								break
+							}
+							bb := sc + "://base.example/x"
+							or := c.cmpParse(d, defaultCfg, &bb, "//"+alt+"/p", allButVerrs, true, "long-hosts-reference", i)
+							if o0.Kind != or.Kind || o0.Kind == "U" && o0.Fields[fHostname] != or.Fields[fHostname] {
+								c.Report(Finding{Class: "violation", What: fmt.Sprintf("a host of %d bytes as part of a reference gives another result than in an absolute URL", len(alt)), Case: Case{Kind: "parse", Cfg: defaultCfg.Desc, Base: &bb, Input: "//" + alt + "/p", Family: "long-hosts-reference", Index: i}, Host: o0.Fields0(fHostname)})
+								break
+							}
+						}
+						if want, ok, decided := expectSpecialHost(d, plain); decided {
+							if ok != (o0.Kind == "U") || ok && o0.Fields[fHostname] != want {
+								c.Report(Finding{Class: "violation", What: fmt.Sprintf("pure-ASCII host of %d bytes: implementation %s, expected the lower-cased host (accepted=%v)", len(plain), o0.Kind+" "+o0.Fields0(fHostname), ok), Case: cs})
+							}
+						}
+					}
+				})
+			}
 			c.Pool.Run(15000*c.Scale, func(d *Driver, i int) {
 				r := rng.Fork(i)
 				cps := r.c09Host()
